@@ -3,12 +3,15 @@ package main
 
 import (
 	"fmt"
+	"os"
 	"go/token"
 	"go/types"
 	"strings"
 
 	"golang.org/x/tools/go/ssa"
 )
+
+var debugStack = os.Getenv("GOSYM_STACK") != ""
 
 type deferred struct {
 	fn   *Fn
@@ -75,6 +78,10 @@ func (e *Engine) callBody(f *ssa.Function, args []Val, env []Val) Val {
 		e.unsupported("call of function without body: %s", f.String())
 	}
 	cf := e.compile(f)
+	if debugStack {
+		e.dbgStack = append(e.dbgStack, f.String())
+		defer func() { e.dbgStack = e.dbgStack[:len(e.dbgStack)-1] }()
+	}
 	e.depth++
 	if e.depth > e.maxDepth {
 		panic(pathEnd{"depth", "call depth bound exceeded in " + f.String()})
@@ -211,8 +218,8 @@ func (e *Engine) run(fr *frame) Val {
 				fr.regs[ci.dst] = &Fn{f: fn, env: env}
 			case iMakeSlice:
 				in := ci.in.(*ssa.MakeSlice)
-				n := e.concreteInt(e.get(fr, &ci.ops[0]).(Sc), "make len")
-				c := e.concreteInt(e.get(fr, &ci.ops[1]).(Sc), "make cap")
+				n := e.concreteInt(e.toInt(e.get(fr, &ci.ops[0]).(Sc), ci.ti), "make len")
+				c := e.concreteInt(e.toInt(e.get(fr, &ci.ops[1]).(Sc), ci.ti2), "make cap")
 				if n < 0 || c < n || c > 1<<24 {
 					panic(&goPanic{msg: "runtime error: makeslice: len out of range"})
 				}
@@ -445,6 +452,23 @@ func (e *Engine) binop(op token.Token, t types.Type, ti, ti2 tinfo, x, y Val) Va
 	return e.intOp(op, ti, ti2, a, b)
 }
 
+// toInt widens an index/length operand to a 64-bit int according to its static type.
+func (e *Engine) toInt(v Sc, ti tinfo) Sc {
+	if v.w == 64 || v.w == 0 {
+		return v
+	}
+	if v.t == nil {
+		if ti.signed {
+			return Sc{w: 64, c: uint64(sextW(v.w, v.c))}
+		}
+		return Sc{w: 64, c: maskW(v.w, v.c)}
+	}
+	if ti.signed {
+		return e.symSc(e.tt.SignExt(64-v.w, v.t))
+	}
+	return e.symSc(e.tt.ZeroExt(64-v.w, v.t))
+}
+
 // concreteInt requires a concrete (or concretizable) integer.
 func (e *Engine) concreteInt(s Sc, what string) int {
 	if s.t != nil {
@@ -489,7 +513,7 @@ func (e *Engine) boundsCheck(i Sc, n int, msg string) {
 }
 
 func (e *Engine) indexAddr(ci *cInstr, x, idx Val) Val {
-	i := idx.(Sc)
+	i := e.toInt(idx.(Sc), ci.ti)
 	var cells []Val
 	switch xv := x.(type) {
 	case Sl:
@@ -517,7 +541,7 @@ func (e *Engine) indexAddr(ci *cInstr, x, idx Val) Val {
 }
 
 func (e *Engine) index(ci *cInstr, x, idx Val) Val {
-	i := idx.(Sc)
+	i := e.toInt(idx.(Sc), ci.ti)
 	switch xv := x.(type) {
 	case St:
 		e.boundsCheck(i, len(xv), "index out of range")
@@ -598,7 +622,7 @@ func (e *Engine) lookup(ci *cInstr, x, idx Val) Val {
 		}
 		return v
 	}
-	return e.strIndex(x, idx.(Sc))
+	return e.strIndex(x, e.toInt(idx.(Sc), ci.ti))
 }
 
 func (e *Engine) next(it *iter) Val {
@@ -669,10 +693,10 @@ func (e *Engine) slice(ci *cInstr, fr *frame) Val {
 		ti := tinfo{w: 64, signed: true}
 		lo, hi := isc(0), n
 		if ci.ops[1].kind != opNone {
-			lo = e.get(fr, &ci.ops[1]).(Sc)
+			lo = e.toInt(e.get(fr, &ci.ops[1]).(Sc), ci.tis[1])
 		}
 		if ci.ops[2].kind != opNone {
-			hi = e.get(fr, &ci.ops[2]).(Sc)
+			hi = e.toInt(e.get(fr, &ci.ops[2]).(Sc), ci.tis[2])
 		}
 		ok := e.andSc(e.intOp(token.GEQ, ti, ti, lo, isc(0)), e.andSc(e.intOp(token.LEQ, ti, ti, lo, hi), e.intOp(token.LEQ, ti, ti, hi, n)))
 		if !e.decide(ok) {
@@ -698,7 +722,7 @@ func (e *Engine) slice(ci *cInstr, fr *frame) Val {
 		if ci.ops[k].kind == opNone {
 			return isc(int64(def))
 		}
-		return e.get(fr, &ci.ops[k]).(Sc)
+		return e.toInt(e.get(fr, &ci.ops[k]).(Sc), ci.tis[k])
 	}
 	lo, hi, mx := bound(1, 0), bound(2, length), bound(3, capacity)
 	if lo.t != nil || hi.t != nil || mx.t != nil {
@@ -712,6 +736,9 @@ func (e *Engine) slice(ci *cInstr, fr *frame) Val {
 	}
 	l, h, m := e.concreteInt(lo, "slice low"), e.concreteInt(hi, "slice high"), e.concreteInt(mx, "slice max")
 	if l < 0 || h > capacity || l > h || m > capacity || h > m {
+		if debugStack {
+			fmt.Fprintf(os.Stderr, "SLICE PANIC [%d:%d] cap %d at %v\n", l, h, capacity, e.dbgStack)
+		}
 		panic(&goPanic{msg: fmt.Sprintf("runtime error: slice bounds out of range [%d:%d] with capacity %d", l, h, capacity)})
 	}
 	switch xv := x.(type) {
